@@ -11,9 +11,12 @@ import (
 	"strings"
 	"time"
 
+	"gorm.io/driver/sqlite"
 	"gorm.io/gorm"
+	"gorm.io/gorm/logger"
 
 	"verifharness/gdb"
+	"verifharness/recdrv"
 )
 
 type Input struct {
@@ -27,6 +30,7 @@ type Input struct {
 	Naming  string   `json:"naming,omitempty"`  // "" | prefix | nolower | replacer (Config.NamingStrategy)
 	QF      bool     `json:"qf,omitempty"`      // Config.QueryFields
 	CBS     int      `json:"cbs,omitempty"`     // Config.CreateBatchSize
+	Fwd     bool     `json:"fwd,omitempty"`     // dialect without RETURNING whose LastInsertId is the FIRST key (not reversed)
 	Spec    []GField `json:"spec,omitempty"`    // run-time generated struct type (reflect.StructOf); Type = "gen_<n>"
 	XRecs   [][]Val  `json:"xrecs,omitempty"`   // values of struct leaves that gorm mapped to no column (normally none)
 	Recs    [][]Val  `json:"recs"`              // canonical values per record, in column (DBNames) order
@@ -76,12 +80,24 @@ func run(in Input) (o Obs) {
 	}
 	curNaming = in.Naming
 	d := descOf(in.Type)
-	db, _, sqlDB, err := gdb.Open(gdb.Opt{NoReturning: in.NoRet, Config: &gorm.Config{NamingStrategy: namingOf(in.Naming), QueryFields: in.QF, CreateBatchSize: in.CBS, NowFunc: func() time.Time {
+	cfg := &gorm.Config{NamingStrategy: namingOf(in.Naming), QueryFields: in.QF, CreateBatchSize: in.CBS, Logger: logger.Discard, NowFunc: func() time.Time {
 		// a moving clock: every reading is clockStep later than the previous one
 		t := nowPinned.Add(time.Duration(clockReads) * clockStep)
 		clockReads++
 		return t
-	}}})
+	}}
+	var db *gorm.DB
+	var sqlDB *sql.DB
+	var err error
+	if in.Fwd {
+		// statements go straight to the (wrapped) pool: no implicit transaction
+		cfg.SkipDefaultTransaction = true
+		sqlDB, _ = recdrv.Open(":memory:")
+		sqlDB.SetMaxOpenConns(1)
+		db, err = gorm.Open(fwdDialector{sqlite.Dialector{Conn: fwdPool{sqlDB}}}, cfg)
+	} else {
+		db, _, sqlDB, err = gdb.Open(gdb.Opt{NoReturning: in.NoRet, Config: cfg})
+	}
 	clockReads = 0
 	if err != nil {
 		panic(err)
